@@ -244,7 +244,7 @@ func init() {
 			var buf bytes.Buffer
 			w.ctx.metrics.logger = log.New(&buf, "", 0)
 			if mw.ev == evPollRejected {
-				w.ctx.allowedRelayPattern = "snowflake.torproject.net$"
+				w.installPatterns("snowflake.torproject.net$", "")
 			}
 			for i := 0; i < mw.n; i++ {
 				switch mw.ev {
